@@ -2,3 +2,4 @@ SPECIFICATION Spec
 INVARIANT Gen
 CHECK_DEADLOCK FALSE
 CONSTANT KeyMergesWsIntoHttp = FALSE
+CONSTANT SetterDropsTls = FALSE
